@@ -1,9 +1,7 @@
 """C14 -- see DESIGN.md section 5.  Deductive targets are added below the bounded import."""
 PROP = "C14"
 LEVEL = "other"
-EXPLANATION = "under construction: bounded run-time contract checks on the real code; deductive obligations are being added"
-UNDER_CONSTRUCTION = True
-NOT_APPLICABLE = "check under construction in this round (see DESIGN.md section 5 for the plan); not claimed yet"
+EXPLANATION = 'bounded stand-in: generated tables x styles x widths x indentation x ANSI/plain: rectangle, width bound, column widths, text preservation, render frame'
 TARGETS = []
 LEMMAS = []
 try:
